@@ -102,6 +102,50 @@ def fmt_for(kind, rng):
     return rng.choice(["glyf_colr_1", "glyf_colr_0", "picosvg", "glyf"])
 
 
+
+def suite_accept_model(ctx, res, n):
+    """Tie for Model/Inputs.lean `acceptInputs` (theorems accept_sound, duplicate_name_rejected): the real _generate_color_font on input
+    lists with repeated glyph names / codepoint sequences at arbitrary positions raises ValueError exactly when the model rejects."""
+    from pathlib import Path
+    from nanoemoji import config as nconfig, write_font, features
+    from picosvg.svg import SVG
+    from harness import common
+
+    rng = ctx.rng
+    ops, real, meta = [], [], []
+    for _ in range(n):
+        k = rng.randint(1, 5)
+        pool_names = ["a", "b", "c", "a", "g_1f600", "u1F600"]
+        pool_cps = [(0x1F600,), (0x1F601,), (0x1F600, 0x200D, 0x1F601), (), (0x41,), (0x1F600,)]
+        ins = [(rng.choice(pool_names) if rng.random() < 0.6 else f"n{i}", rng.choice(pool_cps) if rng.random() < 0.7 else (0xE000 + i,)) for i in range(k)]
+        tmp = common.scratch_dir("c17a")
+        try:
+            fea = tmp / "f.fea"
+            fea.write_text(features.generate_fea(sorted({c for _, c in ins if c})))
+            cfg = nconfig.FontConfig(family="V", output_file=str(tmp / "F.ttf"), fea_file=str(fea), color_format="glyf_colr_1",
+                                     masters=(nconfig.MasterConfig("Regular", "Regular", "x.ufo", (), ()),))
+            svg = SVG.fromstring(cli.simple_svg(1)).topicosvg()
+            inputs = [write_font.InputGlyph(Path(f"s{i}.svg"), None, c, nm, SVG.fromstring(svg.tostring()), None) for i, (nm, c) in enumerate(ins)]
+            try:
+                write_font._generate_color_font(cfg, inputs)
+                real.append(True)
+            except ValueError as e:
+                real.append(False if "Multiple inputs" in str(e) else ("ValueError:" + str(e)[:80]))
+            except Exception as e:  # noqa
+                real.append(type(e).__name__ + ":" + str(e)[:80])
+        finally:
+            shutil.rmtree(tmp, ignore_errors=True)
+        ops.append({"op": "accept-inputs", "inputs": [{"name": nm, "cps": [str(c) for c in cps]} for nm, cps in ins]})
+        meta.append(ins)
+    for ins, r, m in zip(meta, real, ctx.driver.run(ops)):
+        res.count(key=("accept", stable_hash(ins)), nontrivial=len(ins) >= 2)
+        res.stat("accept:" + ("accepted" if r is True else "rejected" if r is False else "other"))
+        if r not in (True, False):
+            continue   # some other legitimate failure of the build (e.g. feature compilation for odd names): not this model's business
+        if m.get("accepted") != r:
+            res.add_tie_break("_generate_color_font input validation vs Model acceptInputs", {"inputs": [(a, list(b)) for a, b in ins]}, m, r)
+
+
 def suite(ctx, res, rounds):
     jobs = []
     for r in range(rounds):
@@ -133,6 +177,7 @@ def run(ctx, res):
     nano.init()
     res.rule = ("one CLI invocation per defect class (8 classes) x rounds, defect at a random position among 2-4 valid sources, format chosen per class; "
                 "first round also runs the defect-free control; every invocation non-trivial")
+    suite_accept_model(ctx, res, ctx.budget(60, 1200))
     suite(ctx, res, ctx.budget(1, 6))
 
 
